@@ -512,7 +512,13 @@ def _case_strategy(fmts, allow_tiny, max_len):
             queries = sorted(q)
         else:
             queries = None
-        return {'content': content, 'schedule': sched, 'queries': queries}
+        fmt0 = content['base'][0] if 'base' in content else 'raw'
+        allowed = draw(st.sampled_from([None, None, None, [fmt0, 'raw'],
+                                        ['raw'], [fmt0],
+                                        ['luks', 'raw', 'qcow2'],
+                                        ['gpt', 'raw', 'vmdk']]))
+        return {'content': content, 'schedule': sched, 'queries': queries,
+                'allowed': allowed, 'wsample': draw(st.booleans())}
     return cases()
 
 
@@ -607,15 +613,22 @@ def check_wrapper(col, case, sub='wrapper'):
     data, img = imgstrat.realize(case['content'])
     sched = case['schedule']
     n = len(data)
-    allowed = [f for f in imggen.FORMATS if not routed(f, data)]
-    for f in imggen.FORMATS:
+    base = [f for f in imggen.FORMATS
+            if not case.get('allowed') or f in case['allowed']]
+    allowed = [f for f in base if not routed(f, data)] or ['raw']
+    for f in base:
         if f not in allowed:
             col.known(sub, routed(f, data))
+    # reference: 512-byte reads, no queries in between; the generated run
+    # may poll format/formats after every read (wsample)
     ref = imgdrive.drive_wrapper(data, REF, 'read', allowed=allowed)
+    ws = bool(case.get('wsample'))
     outs = {'read': imgdrive.drive_wrapper(data, sched, 'read',
-                                           allowed=allowed),
+                                           allowed=allowed, sample=ws),
             'iter': imgdrive.drive_wrapper(data, sched, 'iter',
-                                           allowed=allowed)}
+                                           allowed=allowed, sample=ws),
+            'short': imgdrive.drive_wrapper(data, sched, 'short',
+                                            allowed=allowed, sample=ws)}
 
     def detected_verdict(res):
         """Verdict of the inspector the wrapper settled on (None if none, or
@@ -701,6 +714,14 @@ def cuts_family(col, fmt, params):
         check_inspectors(col, {'content': content, 'schedule': ['fixed', k],
                                'queries': list(range(0, min(n // k + 1, 64)))},
                          sub, names=[fmt])
+    # the same content with trailing payload through InspectWrapper, format
+    # polled after every read, unrestricted and restricted to {fmt, raw}
+    ext = dict(content, extend=[5, 3000], kind='extended')
+    for allowed in (None, [fmt, 'raw']):
+        for k in ((64, 512, 4096) if small else (65536,)):
+            check_wrapper(col, {'content': ext, 'schedule': ['fixed', k],
+                                'allowed': allowed, 'wsample': True},
+                          'cuts')
     col.exhaustive.setdefault(sub, True)
 
 
